@@ -123,6 +123,15 @@ def dead_instruction_modules():
             ('local.tee', local_tee(0)), ('global.get', global_get(0)), ('global.set', global_set(0)), ('call', call(0)), ('call_indirect', call_indirect(0)),
             ('br_if', br_if(0)), ('br_table', br_table([0, 0], 0)), ('i32.const', i32_const(7)), ('f64.const', f64_const(0x4000000000000000)), ('nop', NOP),
             ('block', block(None) + END), ('loop(i32)', loop(I32) + i32_const(1) + END), ('if/else', if_(None) + ELSE + END)]
+    # immediates whose bytes are themselves opcodes of structured / immediate-carrying instructions (0x0b end, 0x05 else, 0x02 block, 0x41
+    # i32.const, 0x28 i32.load, 0x11 call_indirect): a dead instruction that is not decoded completely lets them be taken for instructions
+    for v in (0x0b, 0x05, 0x02, 0x41, 0x28, 0x11):
+        ops += [('i32.const %#x' % v, i32_const(v)), ('i64.const %#x' % v, i64_const(v)), ('i32.load offset=%#x' % v, memop(0x28, 0, v)), ('i64.store offset=%#x' % v, memop(0x37, 0, v))]
+    for v in (0x0b, 0x05, 0x02):
+        ops += [('local.get %d' % v, local_get(v)), ('local.set %d' % v, local_set(v)), ('global.get %d' % v, global_get(v)), ('call %d' % v, call(v)),
+                ('call_indirect type %d' % v, call_indirect(v)), ('memory.init %d' % v, memory_init(v)), ('data.drop %d' % v, data_drop(v)),
+                ('br_table [%d x 0]' % v, br_table([0] * v, 0))]
+    ops += [('f32.const bytes 0b 41 2a 0b', f32_const(0x0b2a410b)), ('f64.const bytes 0b 05 02 41 28 11 0b 0b', f64_const(0x0b0b11284102050b)), ('i64.const sleb 8b 8b 0b', i64_const(0x2c58b))]
     widths = [4, 8, 1, 2, 1, 2, 4]
     lg = {1: 0, 2: 1, 4: 2, 8: 3}
     ops += [('memory.atomic.notify', atomic(0x00, 2, 0)), ('memory.atomic.wait32', atomic(0x01, 2, 0)), ('memory.atomic.wait64', atomic(0x02, 3, 0)), ('atomic.fence', b'\xfe\x03\x00')]
@@ -134,20 +143,26 @@ def dead_instruction_modules():
     out = []
     for how in ('unreachable', 'return', 'br'):
         m = Module()
-        m.mems.append((1, 1)); m.tables.append((2, 2)); m.globals.append((I32, 1, i32_const(0)))
-        m.datas.append(('passive', 0, b'', b'abc')); m.datacount = True
+        m.mems.append((1, 1)); m.tables.append((2, 2))
+        for g_ in range(12):
+            m.globals.append((I32, 1, i32_const(g_)))
+            m.datas.append(('passive', 0, b'', b'abc'))
+        m.datacount = True
         t0 = m.type('', '')
         assert t0 == 0
+        for k_ in range(1, 13):
+            m.type('i' * k_, '')                 # type indices 1..12 exist (dead call_indirect with type index 11 / 5 / 2)
         m.add_func('', '', (), b'', export='z')     # function 0: the target of the dead calls, type 0 = [] -> []
-        for nm, enc in ops:
+        for k_, (nm, enc) in enumerate(ops):
+            # every function returns a value of its own from LIVE code behind / in front of the dead instruction, so that a dead instruction
+            # that swallows the following `end` (or leaves something behind) changes what the function returns
             if how == 'unreachable':
-                body = UNREACHABLE + enc
+                body = UNREACHABLE + enc + UNREACHABLE
             elif how == 'return':
-                body = RETURN + enc
+                body = i32_const(1000 + k_) + RETURN + enc + UNREACHABLE
             else:
-                body = block(None) + br(0) + enc + END
-            # whatever the instruction leaves on the stack is dropped by the (dead) unreachable in front of the function's end
-            m.add_func('i', '', (), body + (UNREACHABLE if how != 'br' else b''), export='d%d' % len(m.exports))
+                body = block(None) + br(0) + enc + END + local_get(0) + i32_const(1000 + k_) + op(0x6a)
+            m.add_func('i', 'i', [(12, I32)], body, export='d%d' % len(m.exports))
         out.append(('every instruction in dead code after %s (%d instructions)' % (how, len(ops)), m.encode()))
     dead_instruction_modules.names = [nm for nm, enc in ops]
     return out
